@@ -27,7 +27,7 @@ import types
 REAL = {}
 CUR = threading.local()
 STATE = types.SimpleNamespace(root=None, installed=False, shims=[], files=[], flocks={}, mainctr=itertools.count(),
-                              dirty=set(), outside=None, slists=[])
+                              dirty=set(), outside=None, slists=[], shared_private=set(), priv_owner={})
 
 TMP_PREFIXES = ("objects/tmp", "metadata/tmp", "refs/tmp")
 
@@ -47,6 +47,7 @@ def reset_execution():
     STATE.flocks = {}
     STATE.dirty = set()
     STATE.slists = []
+    STATE.priv_owner = {}
 
 
 def relp(p):
@@ -73,7 +74,20 @@ def relp(p):
 
 
 def is_private(r):
-    return r is not None and any(r == t or r.startswith(t + "/") for t in TMP_PREFIXES)
+    return r is not None and r not in STATE.shared_private and any(r == t or r.startswith(t + "/") for t in TMP_PREFIXES)
+
+
+def _touch_private(w, r):
+    """Temp files are assumed to be touched by one thread only.  The assumption is checked: a temp path touched
+    by a second thread is recorded in STATE.shared_private and is a visible (scheduled) path from then on; the
+    explorers re-run a scenario whenever this set grew, so that it is visible from the first touch."""
+    if r is None or r in TMP_PREFIXES:
+        return
+    o = STATE.priv_owner.get(r)
+    if o is None:
+        STATE.priv_owner[r] = w.name
+    elif o != w.name:
+        STATE.shared_private.add(r)
 
 
 def canon(r):
@@ -106,6 +120,9 @@ def _mk_hook(name, nargs):
             if kind not in ("probe",) and STATE.outside is not None:
                 STATE.outside.append((name,) + tuple(str(x) for x in a[:nargs]))
             return real(*a, **k)
+        for r in rs:
+            if r is not None and is_private(r):
+                _touch_private(w, r)
         visible = any(r is not None and not is_private(r) for r in rs)
         op = (kind, name) + tuple(canon(r) for r in rs)
         w.real = tuple(r for r in rs if r is not None)
@@ -142,6 +159,8 @@ def _os_open(path, flags, mode=0o777, *, dir_fd=None):
             STATE.outside.append(("os.open", str(path)))
         return REAL["os.open"](path, flags, mode, dir_fd=dir_fd)
     kind = "create" if flags & os.O_CREAT else ("open-w" if flags & (os.O_WRONLY | os.O_RDWR) else "open-r")
+    if is_private(r):
+        _touch_private(w, r)
     op = (kind, "os.open", canon(r))
     w.real = (r,)
     if is_private(r):
@@ -196,9 +215,12 @@ class HFileIO(io.FileIO):
         w = cur()
         if w is None or self._hs_rel is None:
             return None
-        op = (kind, name, canon(self._hs_rel))
-        w.real = (self._hs_real(),)
-        if is_private(self._hs_rel):
+        real = self._hs_real()
+        if is_private(real):
+            _touch_private(w, real)
+        op = (kind, name, canon(real))
+        w.real = (real,)
+        if is_private(real):
             w.private(op)
         else:
             w.point(op)
@@ -268,6 +290,8 @@ def _open(file, mode="r", buffering=-1, encoding=None, errors=None, newline=None
     writing = any(c in mode for c in "wax+")
     creating = any(c in mode for c in "wax")
     kind = ("create" if creating else "open-w") if writing else "open-r"
+    if opener is None and is_private(r):
+        _touch_private(w, r)
     op = (kind, "open:" + mode.replace("b", "").replace("t", ""), canon(r))
     if opener is None:
         w.real = (r,)
